@@ -1,7 +1,9 @@
+mod baton;
 mod ctx;
 mod framework;
 mod hooks;
 mod l2;
+mod locks;
 mod panics;
 mod pipe;
 mod rawsrv;
